@@ -1,6 +1,10 @@
 """C08 — script building, tokenising, number codec and classification predicates."""
+import array
 import itertools
+import os
 import random
+import subprocess
+import sys
 
 from ..framework import Prop, mk, guarded, exc_family, ensure_repo_on_path
 
@@ -31,6 +35,19 @@ class ByteArraySub(bytearray):
 
 OTHER_KINDS = {'str': 'ab', 'emptystr': '', 'none': None, 'float': 1.0, 'list': [1], 'tuple': (1,),
                'dict': {}, 'object': object(), 'complex': 1j, 'set': frozenset()}
+
+
+OPNEW_SEQS = ((256,), (256, -1, 255, -257, 256), (-1, 256, -1, 257, -1, -258, 258, 259), (257, 256, 257, 258, 256),
+              (256, 257, 258, -3, -259, 0, 300), (-256, -257, 256, -257, -258))
+
+OPNEW_SCRIPT = ("import sys; sys.path.insert(0, sys.argv[1]); import bitcoin.core.script as S\n"
+                "out = []\n"
+                "for z in sys.argv[2].split(','):\n"
+                "    try:\n"
+                "        r = S.CScriptOp(int(z)); out.append(str(int(r)) if type(r) is S.CScriptOp else 'not-a-CScriptOp')\n"
+                "    except Exception as e:\n"
+                "        out.append('err:py:' + type(e).__name__)\n"
+                "print(','.join(out))\n")
 
 
 class OneShot:
@@ -78,19 +95,19 @@ class C08(Prop):
         'numDecode_numEncode', 'numEncode_minimal', 'numEncode_numDecode_of_minimal', 'bn2vch_eq_spec',
         'vch2bn_eq_spec', 'bn2vch_defined', 'vch2bn_bn2vch', 'bn2vch_minimal', 'bn2vch_vch2bn_of_minimal',
         'bn2vch_injective', 'build_eq_spec', 'build_fails_iff', 'add_eq_spec', 'add_other_typeerror',
-        'build_append', 'build_append_inv', 'build_other_fails', 'build_bool', 'build_minimal_small_int',
-        'build_minimal_int', 'build_minimal_data', 'build_data_form', 'build_defined', 'iter_build',
-        'build_iter_build', 'raw_iter_partition', 'raw_iter_concat', 'raw_iter_error', 'raw_iter_error_data',
-        'raw_iter_eq_spec', 'cooked_error_is_invalidscript', 'pred_eq_spec_p2sh',
-        'pred_eq_spec_witness_program', 'pred_eq_spec_witness_version', 'pred_eq_spec_v0_keyhash',
-        'pred_eq_spec_v0_scripthash', 'pred_eq_spec_v0_nested_keyhash', 'pred_eq_spec_v0_nested_scripthash',
-        'pred_eq_spec_push_only', 'pred_eq_spec_canonical_pushes', 'pred_eq_spec_valid',
-        'pred_eq_spec_unspendable', 'sigops_eq_spec', 'sigops_accurate_le_legacy', 'isP2sh_iff',
-        'isWitnessProgram_iff', 'isWitnessV0Keyhash_iff', 'isWitnessV0Scripthash_iff',
+        'build_append', 'build_append_inv', 'build_other_fails', 'build_buffer_raw', 'build_bool',
+        'build_minimal_small_int', 'build_minimal_int', 'build_minimal_data', 'build_data_form',
+        'build_defined', 'iter_build', 'build_iter_build', 'raw_iter_partition', 'raw_iter_concat',
+        'raw_iter_error', 'raw_iter_error_data', 'raw_iter_eq_spec', 'cooked_error_is_invalidscript',
+        'pred_eq_spec_p2sh', 'pred_eq_spec_witness_program', 'pred_eq_spec_witness_version',
+        'pred_eq_spec_v0_keyhash', 'pred_eq_spec_v0_scripthash', 'pred_eq_spec_v0_nested_keyhash',
+        'pred_eq_spec_v0_nested_scripthash', 'pred_eq_spec_push_only', 'pred_eq_spec_canonical_pushes',
+        'pred_eq_spec_valid', 'pred_eq_spec_unspendable', 'sigops_eq_spec', 'sigops_accurate_le_legacy',
+        'isP2sh_iff', 'isWitnessProgram_iff', 'isWitnessV0Keyhash_iff', 'isWitnessV0Scripthash_iff',
         'isWitnessV0NestedKeyhash_iff', 'isWitnessV0NestedScripthash_iff', 'isUnspendable_iff',
         'isValid_iff', 'isPushOnly_iff', 'hasCanonicalPushes_iff', 'script_decomposition', 'sigops_single',
         'sigops_opn_multisig', 'sigops_append', 'sigops_append_general', 'sigops_truncated_tail',
-        'opcode_lookup_in_table')]
+        'sigops_laws_hold', 'sigops_laws_unique', 'sigops_multisig_20', 'opcode_lookup_in_table')]
     anchors = [(SCRIPT, 'CScriptOp.encode_op_pushdata'), (SCRIPT, 'CScriptOp.encode_op_n'),
                (SCRIPT, 'CScriptOp.decode_op_n'), (SCRIPT, 'CScriptOp.is_small_int'),
                (SCRIPT, 'CScriptOp.__new__'),
@@ -146,6 +163,8 @@ class C08(Prop):
             return bytes.fromhex(v)
         if k == 'b:':
             return v == '1'
+        if k == 'u:':
+            return memoryview(bytes.fromhex(v))
         if k == 'x:':
             return OTHER_KINDS[v]
         raise ValueError(t)
@@ -180,6 +199,10 @@ class C08(Prop):
             variants.append(('list-intsubclass', list, [IntSub(o) if type(o) is int else o for o in objs]))
             if any(type(o) is int and o in (0, 1) for o in objs):
                 variants.append(('list-bool', list, [bool(o) if type(o) is int and o in (0, 1) else o for o in objs]))
+        if any(type(o) is memoryview for o in objs):   # other buffer-protocol kinds splice the same raw bytes
+            for nm, cv in (('array-B', lambda m: array.array('B', bytes(m))),
+                           ('memoryview-of-bytearray', lambda m: memoryview(bytearray(bytes(m))))):
+                variants.append(('list-' + nm, list, [cv(o) if type(o) is memoryview else o for o in objs]))
         if any(type(o) is bool for o in objs):
             variants.append(('list-bool-as-int', list, [int(o) if type(o) is bool else o for o in objs]))
         if any(isinstance(o, (bytes, bytearray)) for o in objs):
@@ -399,7 +422,6 @@ class C08(Prop):
         """Deterministic enumerations are partitioned by index (`part`); random sections are generated
         per shard (each shard has its own rng stream) with the count divided by the number of shards."""
         big = tier == 'thorough'
-        self._dups = {}          # worker side only: see agree()
 
         def part(seq):
             for idx, x in enumerate(seq):
@@ -435,6 +457,7 @@ class C08(Prop):
         # (b) builder: single tokens (every opcode value, every int edge, every length edge), then sequences
         singles = ['o:%d' % n for n in range(0, 0x100)] + ['i:%d' % z for z in edges]
         singles += ['b:0', 'b:1'] + ['x:' + k for k in sorted(OTHER_KINDS)]
+        singles += ['u:', 'u:51', 'u:00', 'u:ac0102', 'u:4c', 'u:05ab']   # buffer-protocol elements: spliced in raw
         for t in part(singles):
             yield mk('c08.build', t, tag='build1')
             yield mk('c08.add', rng.randbytes(rng.randrange(0, 3)).hex(), t, tag='add')
@@ -454,6 +477,8 @@ class C08(Prop):
                 toks.insert(rng.randrange(len(toks) + 1), 'o:%d' % rng.randrange(0, 0x4f))
             if j % 4 == 1:      # bool elements (ints to Python)
                 toks.insert(rng.randrange(len(toks) + 1), rng.choice(('b:0', 'b:1')))
+            if j % 8 == 5:      # a buffer-protocol element (memoryview / array): raw bytes, no push
+                toks.insert(rng.randrange(len(toks) + 1), 'u:' + rng.randbytes(rng.randrange(0, 4)).hex())
             if j % 16 == 3:     # an element of a non-script type at a random position: TypeError
                 toks.insert(rng.randrange(len(toks) + 1), 'x:' + rng.choice(sorted(OTHER_KINDS)))
             yield mk('c08.build', ','.join(toks), tag='buildseq')
@@ -503,8 +528,11 @@ class C08(Prop):
         # small-integer opcode helpers over their whole domain; mpi2bn on well- and ill-formed MPI strings
         for n in part(range(256)):
             yield mk('c08.opn.dec', n, tag='opn')
-        for n in part([z for z in range(-300, 301) if z != 256]):      # 256 would grow the real table
+        for n in part([z for z in range(-300, 301) if z != 256]):      # 256 grows the table: see opnewseq
             yield mk('c08.opnew', n, tag='opnew')
+        # CScriptOp(256) appends to the module-level table: run call sequences in a fresh interpreter each
+        for seq in part(OPNEW_SEQS):
+            yield mk('c08.opnewseq', ','.join(str(z) for z in seq), tag='opnewseq')
         for z in part(list(range(-3, 21)) + [p for p in self.pool if abs(p) < 1 << 40]):
             yield mk('c08.opn.enc', z, tag='opn')
         for j in range(share(4000 if big else 400)):
@@ -588,6 +616,8 @@ class C08(Prop):
                     toks += [IntSub(tok)] + ([bool(tok)] if tok in (0, 1) else [])
                 if type(tok) is bool:
                     toks += [int(tok)]
+                if type(tok) is memoryview:
+                    toks += [array.array('B', bytes(tok)), memoryview(bytearray(bytes(tok)))]
                 outs = []
                 for base in (SC.CScript(raw), SC.CScript(bytearray(raw))):
                     for t in toks:
@@ -662,6 +692,11 @@ class C08(Prop):
                 r = SC.CScriptOp(int(a[0]))
                 return str(int(r)) if type(r) is SC.CScriptOp else 'not-a-CScriptOp'
             return guarded(f)
+        if op == 'c08.opnewseq':
+            from ..framework import REPO
+            r = subprocess.run([sys.executable, '-c', OPNEW_SCRIPT, REPO, a[0]], stdout=subprocess.PIPE,
+                               stderr=subprocess.PIPE, text=True)
+            return r.stdout.strip() if r.returncode == 0 else 'subprocess-failed:' + r.stderr[-200:]
         if op == 'c08.opn.enc':
             def f():
                 r = SC.CScriptOp.encode_op_n(int(a[0]))
@@ -690,21 +725,6 @@ class C08(Prop):
                 return 'none' if v is None else str(v)
             return guarded(f)
         raise ValueError(op)
-
-    _dups = None
-
-    def agree(self, c, io, mo):
-        """Equality; inside a worker, repeats of one failure class beyond the 8th are not recorded so that the
-        framework's per-shard cap of 50 recorded mismatches cannot be used up by a single class (the
-        exhaustive sub-domain alone yields thousands of instances of D3)."""
-        if io == mo:
-            return True
-        if self._dups is not None:
-            key = self.signature(c, io, mo) or (c['op'], io.split(' ')[0][:24], mo.split(' ')[0][:24])
-            self._dups[key] = self._dups.get(key, 0) + 1
-            if self._dups[key] > 8:
-                return True
-        return False
 
     def nontrivial(self, c, io):
         return bool(c['args'][0]) and c['args'][0] not in ('0', '00')
